@@ -59,3 +59,8 @@ check("C14", "other",
       "engines, restricted column functions): on every z3-feasible path of every program the factory either raises the documented "
       "class or returns a tree whose every node passes the invariant walk; documented no-op calls return self.",
       "bounded symbolic execution (symx+z3 path enumeration) of the real factories + invariant walk of every returned tree", "3/C14")
+check("C20", "other",
+      "Bounded exploration under symx of every single ill-typing edit of well-typed multi-engine prefixes through every "
+      "preferred-engine option; slice start/stop/step are unbounded symbolic integers and z3 decides that exactly the ill-formed "
+      "regions raise ValueError/TypeError; rejection class, no return value and unchanged fingerprints are path assertions.",
+      "bounded symbolic execution (symx+z3) of the real factory calls with symbolic slice arguments", "3/C20")
